@@ -173,6 +173,23 @@ fn run(a: &[&str]) -> String {
                     "all_paths" => vfs.all_paths(f[1]).map(|v| v.iter().map(|p| p.to_string_lossy().to_string()).collect::<Vec<_>>().join("|")),
                     "dirs" => vfs.dirs(f[1]).map(|v| v.iter().map(|p| p.to_string_lossy().to_string()).collect::<Vec<_>>().join("|")),
                     "files" => vfs.files(f[1]).map(|v| v.iter().map(|p| p.to_string_lossy().to_string()).collect::<Vec<_>>().join("|")),
+                    // entries <path> <flags>: flags separated by ',': d(irs) f(iles) F(ollow) c(ontents_first) s(ort_by_name) D(irs_first) I(files_first)
+                    // m<N> min_depth M<N> max_depth p<suffix> filter_p(path has suffix); "-" = none.  Yields joined by '|', errors as ERR(kind)
+                    "entries" => vfs.entries(f[1]).map(|mut e| {
+                        let mut suffix: Option<String> = None;
+                        for fl in f.get(2).unwrap_or(&"-").split(',') {
+                            let (k, v) = fl.split_at(if fl.is_empty() { 0 } else { 1 });
+                            e = match k {
+                                "d" => e.dirs(), "f" => e.files(), "F" => e.follow(true), "c" => e.contents_first(), "s" => e.sort_by_name(),
+                                "D" => e.dirs_first(), "I" => e.files_first(), "m" => e.min_depth(v.parse().unwrap()), "M" => e.max_depth(v.parse().unwrap()),
+                                "p" => { suffix = Some(v.to_string()); e },
+                                _ => e,
+                            };
+                        }
+                        let it = e.into_iter();
+                        let it = match suffix { Some(sfx) => it.filter_p(move |x| x.path().to_string_lossy().ends_with(&sfx)), None => it };
+                        it.take(500).map(|x| match x { Ok(en) => en.path().to_string_lossy().to_string(), Err(er) => format!("ERR({})", kind(&er)) }).collect::<Vec<_>>().join("|")
+                    }),
                     "is_dir" => Ok(vfs.is_dir(f[1]).to_string()),
                     "is_file" => Ok(vfs.is_file(f[1]).to_string()),
                     "is_symlink" => Ok(vfs.is_symlink(f[1]).to_string()),
